@@ -1,7 +1,10 @@
 (* C05 — property theorems only: each closed by [exact] of a lemma proved elsewhere. *)
 From Coq Require Import List String Bool Permutation Sorted.
-From Helm Require Import Common.Assoc Render.SortLemmas Render.Pipeline Render.PipelineProofs Render.PipelineInst
+From Helm Require Import Common.Assoc Values.Tree Render.SortLemmas Render.Pipeline Render.PipelineProofs Render.PipelineInst
      Render.Files Render.FilesProofs Render.FuncMap Gen.FuncMap.
+From Helm Require Import Render.Engine Render.EngineProofs Render.EngineNames Render.EngineEquiv Render.FilesMore
+     Render.Funcs Render.FuncsProofs Render.FuncMap2 Render.Mini Render.EngineExamples Misc.PanicsRec Gen.C05Funcs.
+From Helm Require Chart.Paths.
 Import ListNotations.
 Local Open Scope string_scope.
 
@@ -112,3 +115,293 @@ Example C05_as_config_fixed_witness :
   base_map (fun s => s) [("conf/b/x.txt", "B"); ("conf/a/x.txt", "A")] = [("x.txt", "B")].
 Proof. exact base_map_fixed_witness. Qed.
 Print Assumptions C05_as_config_fixed_witness.
+
+(* ====================================================================================== round 4 *)
+(* pkg/engine itself inside the model: allTemplates / recAllTpls over a chart TREE, Engine.render,
+   .Files, Helm's own template functions.  text/template, sprig, the codecs and the cluster are
+   arbitrary functions (Section variables of the model). *)
+
+(* ---- (a) Engine.render and the iteration order of its maps ---- *)
+
+(* For every executor ([parse] = t.New(name).Parse, [exec] = ExecuteTemplate on the scope value Helm
+   built, [ustate] = whatever executed templates wrote to the values they share): the rendered map,
+   the state left behind, or the error (stage, file) are the same for every iteration order of the
+   templates map and of the store of scope maps. *)
+Theorem C05_render_order_independent :
+  forall (file_val : string -> val) (tset : Type) (parse : tset -> string -> string -> option tset)
+         (ustate : Type) (exec : tset -> ustate -> string -> val -> option (string * ustate))
+         (t0 : tset) (u0 : ustate) (tpls tpls' : tmap) (store store' : smap),
+    NoDup (map fst tpls) -> Permutation tpls tpls' -> NoDup (map fst store) -> Permutation store store' ->
+    render file_val tset parse ustate exec t0 u0 tpls store = render file_val tset parse ustate exec t0 u0 tpls' store'.
+Proof. exact render_order_independent. Qed.
+Print Assumptions C05_render_order_independent.
+
+(* Where the execution ORDER matters, and what it is.  The templates of a chart share one scope map
+   (and its .Values), so what a file sees depends on the files executed before it (seeded C05-1 and
+   C05-8 broke exactly that).  For EVERY template map, executor and starting state: the executor
+   that additionally records the names it is called with gives the same outcome, and its record
+   is [executed (sort_templates keys)] - the non-partial keys in sortTemplates order; the rendered
+   names are exactly these. *)
+Theorem C05_render_execution_order :
+  forall (file_val : string -> val) (tset : Type) (parse : tset -> string -> string -> option tset)
+         (ustate : Type) (exec : tset -> ustate -> string -> val -> option (string * ustate))
+         (t0 : tset) (u0 : ustate) (tpls : tmap) (store : smap),
+    match render file_val tset parse ustate exec t0 u0 tpls store with
+    | inl (m, (ts, u)) =>
+        render file_val tset parse (ustate * list string) (logged tset ustate exec) t0 (u0, []) tpls store
+        = inl (m, (ts, (u, executed (sort_templates (map fst tpls))))) /\
+        map fst m = executed (sort_templates (map fst tpls))
+    | inr e => render file_val tset parse (ustate * list string) (logged tset ustate exec) t0 (u0, []) tpls store = inr e
+    end.
+Proof. exact render_execution_order. Qed.
+Print Assumptions C05_render_execution_order.
+
+(* executing while ranging over the map (the seeded change) is refuted on the new model too *)
+Lemma C05_render_exec_map_order_refuted :
+  exists tpls tpls' : tmap, NoDup (map fst tpls) /\ Permutation tpls tpls' /\
+    forall m m' fin fin',
+      render_exec_in_map_order (fun _ => VNull) unit (fun t _ _ => Some t) string trace_exec2 tt "" tpls w2_store = inl (m, fin) ->
+      render_exec_in_map_order (fun _ => VNull) unit (fun t _ _ => Some t) string trace_exec2 tt "" tpls' w2_store = inl (m', fin') ->
+      aget "c/templates/a.yaml" m <> aget "c/templates/a.yaml" m'.
+Proof. exact render_exec_map_order_refuted. Qed.
+Print Assumptions C05_render_exec_map_order_refuted.
+
+(* the first key in sortTemplates order that does not parse is the one reported *)
+Theorem C05_parse_first_failure :
+  forall (tset : Type) (parse : tset -> string -> string -> option tset) (t : tset) (keys : list string) (tpls : tmap) (f : string),
+    (forall k, In k keys -> aget k tpls <> None) ->
+    parse_files tset parse t keys tpls = inr f ->
+    exists pre post t', keys = (pre ++ f :: post)%list /\ parse_files tset parse t pre tpls = inl t' /\
+                        exists r, aget f tpls = Some r /\ parse t' f (r_tpl r) = None.
+Proof. exact parse_files_first_failure. Qed.
+Print Assumptions C05_parse_first_failure.
+
+(* The render values are Go maps as well.  [vmeq top top']: every key has equal bindings up to the
+   order of map entries at every depth ([veq]).  If the executor cannot tell two orders of one map
+   apart, Engine.Render(chart tree, values) is the same for both - for every chart tree. *)
+Theorem C05_render_values_order :
+  forall (file_val : string -> val) (tset : Type) (parse : tset -> string -> string -> option tset)
+         (ustate : Type) (exec : tset -> ustate -> string -> val -> option (string * ustate)),
+    (forall t u k v v', veq v v' -> exec t u k v = exec t u k v') ->
+    forall (t0 : tset) (u0 : ustate) (c : chart) (top top' : vmap),
+      vmeq top top' ->
+      engine_render_tree file_val tset parse ustate exec t0 u0 c top = engine_render_tree file_val tset parse ustate exec t0 u0 c top'.
+Proof. exact engine_render_values_order. Qed.
+Print Assumptions C05_render_values_order.
+
+Theorem C05_veq_of_permutation :
+  forall m m' : vmap, NoDup (map fst m) -> Permutation m m' -> veq (VMap m) (VMap m').
+Proof. exact veq_of_permutation. Qed.
+Print Assumptions C05_veq_of_permutation.
+
+(* ---- (b) template names ---- *)
+
+(* for EVERY chart tree the keys of the map allTemplates returns are distinct (it is a map) ... *)
+Theorem C05_template_map_keys_distinct :
+  forall (c : chart) (top : vmap), NoDup (map fst (fst (all_templates c top))).
+Proof. exact all_templates_keys_nodup. Qed.
+Print Assumptions C05_template_map_keys_distinct.
+
+(* ... and for a well-formed tree (names are clean path elements, sibling dependencies have distinct
+   names, template names are distinct clean paths below templates/) nothing was overwritten on the
+   way: the names are distinct BEFORE the map collapses anything, and the map is the plain
+   enumeration of the tree (dependencies first, in Dependencies() order) *)
+Theorem C05_template_names_unique :
+  forall c : chart, wf_chart c -> NoDup (map fst (tree_entries c true [] "")).
+Proof. exact tree_entries_keys_nodup. Qed.
+Print Assumptions C05_template_names_unique.
+
+Theorem C05_all_templates_is_tree_entries :
+  forall (c : chart) (top : vmap), wf_chart c -> fst (all_templates c top) = tree_entries c true [] "".
+Proof. exact all_templates_is_tree_entries. Qed.
+Print Assumptions C05_all_templates_is_tree_entries.
+
+(* scoping by path: a chart's own templates are <ChartFullPath>/<name> with base path
+   <ChartFullPath>/templates and the chart's own scope map ... *)
+Theorem C05_own_templates_scoped :
+  forall (c : chart) (root : bool) (id : sid) (pfull : string),
+    wf_chart c -> path_ok (chart_full root pfull (ch_name c)) ->
+    let full := chart_full root pfull (ch_name c) in
+    Forall (fun kv => exists t, In t (some_names (ch_templates c)) /\ fst kv = full ++ "/" ++ t /\
+                                r_scope (snd kv) = id /\ r_base (snd kv) = full ++ "/templates")
+           (own_entries (is_library (ch_type c)) full id (ch_templates c)).
+Proof. exact own_templates_scoped. Qed.
+Print Assumptions C05_own_templates_scoped.
+
+(* ... and everything else in its subtree lies under <ChartFullPath>/charts/<dependency name>/ *)
+Theorem C05_dependency_templates_scoped :
+  forall (c : chart) (root : bool) (id : sid) (pfull k : string) (r : renderable),
+    wf_chart c -> path_ok (chart_full root pfull (ch_name c)) ->
+    In (k, r) (tree_entries c root id pfull) ->
+    let full := chart_full root pfull (ch_name c) in
+    (exists rest, k = full ++ "/templates/" ++ rest) \/
+    (exists d rest, In d (ch_deps c) /\ k = full ++ "/charts/" ++ ch_name d ++ "/" ++ rest).
+Proof. exact dependency_templates_scoped. Qed.
+Print Assumptions C05_dependency_templates_scoped.
+
+(* non-vacuity: a parent with a library chart, an application chart with a dependency of its own, a
+   partial with a clashing definition - well-formed, rendered by the reference executor *)
+Example C05_tree_witness :
+  wf_chart ex_chart /\
+  map fst (fst (all_templates ex_chart ex_top)) =
+    ["p/charts/lib/templates/_l.tpl"; "p/charts/app/charts/deep/templates/d.yaml"; "p/charts/app/templates/a.yaml";
+     "p/templates/_h.tpl"; "p/templates/cm.yaml"] /\
+  exists fin, ex_render = inl ([("p/charts/app/charts/deep/templates/d.yaml", "deep sees parent-h");
+                                ("p/charts/app/templates/a.yaml", "app in rel: from-app");
+                                ("p/templates/cm.yaml", "p/templates/cm.yaml root=true lib=[lib] ")], fin).
+Proof. exact ex_tree_witness. Qed.
+Print Assumptions C05_tree_witness.
+
+(* ---- .Files ---- *)
+
+(* hermeticity: the only content .Files can hand out is an entry of the chart's own file list ... *)
+Theorem C05_files_only_own_content :
+  forall (from : list (string * string)) (n d : string), aget n (new_files from) = Some d -> In (n, d) from.
+Proof. exact files_only_own_content. Qed.
+Print Assumptions C05_files_only_own_content.
+
+(* ... any other name (absolute, ../, host paths) is the empty string / no lines *)
+Theorem C05_files_unknown_is_empty :
+  forall (from : list (string * string)) (n : string),
+    ~ In n (map fst from) -> files_get n (new_files from) = EmptyString /\ files_lines n (new_files from) = Some [].
+Proof. exact files_get_unknown_is_empty. Qed.
+Print Assumptions C05_files_unknown_is_empty.
+
+(* the order of the chart's file list is irrelevant when its names are distinct; with a repeated
+   name the later entry wins (newFiles overwrites) *)
+Theorem C05_files_list_order :
+  forall from from' : list (string * string),
+    NoDup (map fst from) -> Permutation from from' -> forall n, aget n (new_files from) = aget n (new_files from').
+Proof. exact new_files_list_order. Qed.
+Print Assumptions C05_files_list_order.
+
+Lemma C05_files_repeated_name_refuted :
+  exists from from', Permutation from from' /\ files_get "a" (new_files from) <> files_get "a" (new_files from').
+Proof. exact new_files_repeated_name_refuted. Qed.
+Print Assumptions C05_files_repeated_name_refuted.
+
+(* Glob returns a sub-map, for any matcher *)
+Theorem C05_glob_is_submap :
+  forall (gmatch : string -> string -> bool) (p : string) (f : files) (kv : string * string),
+    In kv (files_glob gmatch p f) -> In kv f /\ gmatch p (fst kv) = true.
+Proof. exact glob_is_submap. Qed.
+Print Assumptions C05_glob_is_submap.
+
+Theorem C05_glob_get :
+  forall (gmatch : string -> string -> bool) (p : string) (f : files) (n : string),
+    files_get n (files_glob gmatch p f) = if gmatch p n then files_get n f else EmptyString.
+Proof. exact glob_get. Qed.
+Print Assumptions C05_glob_get.
+
+(* AsConfig / AsSecrets with colliding base names: the greatest full name wins, for every file map *)
+Theorem C05_as_config_winner :
+  forall (enc : string -> string) (f : files) (k b : string),
+    NoDup (map fst f) -> In k (map fst f) -> path_base k = b ->
+    (forall k', In k' (map fst f) -> path_base k' = b -> k' = k \/ str_ltb k' k = true) ->
+    aget b (base_map enc f) = Some (enc (files_get k f)).
+Proof. exact base_map_winner. Qed.
+Print Assumptions C05_as_config_winner.
+
+(* ---- Helm's own template functions ---- *)
+
+(* toYaml: a marshal error is the empty string; otherwise exactly one trailing newline is cut *)
+Theorem C05_to_yaml :
+  forall (yaml_marshal : val -> string + string) (v : val),
+    match yaml_marshal v with
+    | inr _ => to_yaml yaml_marshal v = EmptyString
+    | inl d => to_yaml yaml_marshal v = d \/ d = to_yaml yaml_marshal v ++ nl1
+    end.
+Proof. exact to_yaml_spec. Qed.
+Print Assumptions C05_to_yaml.
+
+(* fromYaml / fromJson / fromToml on error: the map gets the key "Error", the rest stays *)
+Theorem C05_from_map_error :
+  forall (m : vmap) (e : string),
+    exists m', from_map (Some m, Some e) = FOk (VMap m') /\ mget "Error" m' = Some (VStr e) /\
+               forall k, k <> "Error" -> mget k m' = mget k m.
+Proof. exact from_map_error. Qed.
+Print Assumptions C05_from_map_error.
+
+(* required fails exactly on nil and "" - and never in lint mode *)
+Theorem C05_required :
+  forall (warn : string) (v : val),
+    ((exists e, required_fn false warn v = FErr e) <-> (v = VNull \/ v = VStr EmptyString)) /\
+    (exists x, required_fn true warn v = FOk x).
+Proof. exact (fun warn v => conj (required_fails_iff warn v) (required_lint_never_fails warn v)). Qed.
+Print Assumptions C05_required.
+
+(* lookup without a client provider (or in lint mode) answers {} whatever the cluster holds; the engine
+   renderResources builds for a client-side dry run has no client: dry-run rendering is hermetic *)
+Theorem C05_lookup_without_client :
+  forall (client_for : string -> string -> (bool + string)) (cluster_get : string -> string -> string -> string -> cluster_res)
+         (cluster_list : string -> string -> string -> cluster_res) (e : engine_opts) (apiv kind ns name : string),
+    lookup_bound e = false -> lookup_fn client_for cluster_get cluster_list e apiv kind ns name = (VMap [], None).
+Proof. exact lookup_without_client. Qed.
+Print Assumptions C05_lookup_without_client.
+
+Theorem C05_dry_run_lookup_is_empty :
+  forall (client_for : string -> string -> (bool + string)) (cluster_get : string -> string -> string -> string -> cluster_res)
+         (cluster_list : string -> string -> string -> cluster_res)
+         (dry_run : bool) (opt : string) (has_getter dns : bool) (apiv kind ns name : string),
+    is_dry_run_flags dry_run opt = true -> opt <> "server" -> opt <> "none" -> opt <> "false" ->
+    lookup_fn client_for cluster_get cluster_list (render_engine dry_run opt has_getter dns) apiv kind ns name = (VMap [], None).
+Proof. exact dry_run_lookup_is_empty. Qed.
+Print Assumptions C05_dry_run_lookup_is_empty.
+
+(* the hypotheses are needed: DryRun = true with DryRunOption "none" / "false" talks to the cluster *)
+Example C05_dry_run_none_interacts :
+  is_dry_run_flags true "none" = true /\ interact_with_remote true "none" = true /\ interact_with_remote true "false" = true /\
+  interact_with_remote true "client" = false /\ interact_with_remote true "" = false /\ interact_with_remote false "" = true.
+Proof. exact dry_run_none_interacts. Qed.
+Print Assumptions C05_dry_run_none_interacts.
+
+(* include and tpl leave the depth counters all files of a render share as they found them (also
+   on failure and when refused), around any body that does: no file's rendering can depend, through
+   the counters, on the files executed before it *)
+Theorem C05_include_balanced :
+  forall (A : Type) (body : rst -> (A * option string) * rst) (dflt : A) (s : rst) (name : string),
+    (forall s1, same_counters (snd (body s1)) s1) ->
+    same_counters (snd (include_fn body dflt s name)) s.
+Proof. exact @include_fn_balanced. Qed.
+Print Assumptions C05_include_balanced.
+
+Theorem C05_tpl_balanced :
+  forall (tset src : Type) (src_text : src -> string) (t_clone : tset -> option tset) (t_option : bool -> tset -> tset)
+         (t_rebind : tset -> tset) (t_parse_new : tset -> src -> option tset)
+         (t_execute : tset -> rst -> val -> (string * option string) * rst)
+         (strict : bool) (parent : tset) (s : rst) (text : src) (vals : val),
+    (forall t s1 v, same_counters (snd (t_execute t s1 v)) s1) ->
+    same_counters (snd (tpl_fn tset src src_text t_clone t_option t_rebind t_parse_new t_execute strict parent s text vals)) s.
+Proof. exact tpl_fn_balanced. Qed.
+Print Assumptions C05_tpl_balanced.
+
+(* ---- the function table, semantically ---- *)
+
+(* regenerated by reflection on every run: funcMap() is sprig's table minus env / expandenv with
+   Helm's own entries put in - as a set of (name, is-it-sprig's-function) pairs *)
+Theorem C05_funcmap_semantic :
+  Permutation funcmap_origins (func_table sprig_names) /\
+  func_names = map fst funcmap_origins /\
+  (forall n, In n ["env"; "expandenv"] -> ~ In n (map fst funcmap_origins)).
+Proof. exact funcmap_semantic. Qed.
+Print Assumptions C05_funcmap_semantic.
+
+(* for each of the 8 engines (LintMode x client provider x EnableDNS): what initFunMap binds on a
+   fresh template is the model's bound table; no env / expandenv; getHostByName is Helm's stub
+   whenever EnableDNS is off (with or without a client: seeded C05-2); lookup is re-bound only with a
+   client outside lint mode *)
+Theorem C05_bound_semantic :
+  forall (e : engine_opts) (ot : list (string * origin)),
+    In (e, ot) bound_origins ->
+    Permutation ot (bound_table e sprig_names) /\
+    (forall n, In n ["env"; "expandenv"] -> ~ In n (map fst ot)) /\
+    (e_dns e = false -> In ("getHostByName", OHelm) ot) /\
+    (lookup_bound e = false -> ~ In "lookup" (rebound e)).
+Proof. exact bound_semantic. Qed.
+Print Assumptions C05_bound_semantic.
+
+Theorem C05_rebound_is_model :
+  map fst bound_rebound = all_engines /\
+  Forall (fun ce => snd ce = sort_strings (rebound (fst ce))) bound_rebound.
+Proof. exact rebound_is_model. Qed.
+Print Assumptions C05_rebound_is_model.
